@@ -1,7 +1,7 @@
 """C04 — negation and aggregation see the complete relation, each tuple once."""
 from . import core, eng, gen, engcheck
 
-THEOREMS = ["agg_view_each_once", "run_agg_eq_model", "agg_sees_final", "run_agg_rows_set", "run_agg_from_eq_model", "agg_view_each_once_from", "run_agg_eq_model_from", "second_run_agg_view_each_once", "second_run_view_witness", "runPhys_agg_eq_model", "runND_agg_spec", "run_is_RunND_agg", "neg_hyps"]
+THEOREMS = ["agg_view_each_once", "run_agg_eq_model", "agg_sees_final", "run_agg_rows_set", "run_agg_from_eq_model", "agg_view_each_once_from", "run_agg_eq_model_from", "second_run_agg_view_each_once", "second_run_view_witness", "runPhys_agg_eq_model", "runND_agg_spec", "run_is_RunND_agg", "neg_hyps", "aggPlanOk_ixSetsOfA", "planOk_ixSetsOfA", "runPhys_agg_compiled_eq_model"]
 TRUSTED = ["Lean 4.33.0 kernel", "axioms: propext, Classical.choice, Quot.sound only (audited per theorem)",
            "statement: Props/C04.lean", "model Model/Engine.lean (aggTuples: the aggregated relation's stored index entries, full index = distinct tuples, "
            "Vec index = one entry per insertion) tied by compiled stratified programs with count/sum/min/max/not at stratum depth 1-3",
@@ -86,7 +86,7 @@ def known(c, p, impl, model):
 
 
 def check(tier, replay=None):
-    return engcheck.run_property("C04", tier, modules=["AscentVerif.Props.C04", "AscentVerif.Props.C04Phys", "AscentVerif.Proofs.NDAgg", "AscentVerif.Proofs.PhysAggRun"], theorems=THEOREMS, trusted=TRUSTED, group="c04",
+    return engcheck.run_property("C04", tier, modules=["AscentVerif.Props.C04", "AscentVerif.Props.C04Phys", "AscentVerif.Proofs.NDAgg", "AscentVerif.Proofs.PhysAggRun", "AscentVerif.Props.C04PhysPlan"], theorems=THEOREMS, trusted=TRUSTED, group="c04",
                                  build=build, oracle=oracle, known=known, what="compiled stratified programs with aggregation / negation",
                                  rule="generated relational cores plus aggregation rules (count, sum, min, max, not) at stratum depth 1-3, aggregated relation's "
                                       "columns bound by key variables / constants, wildcarded or aggregated in every mix; aggregation as the FIRST body item followed by two joined clauses the second of which "
